@@ -117,6 +117,9 @@ class Isomorphism(Generic[ClassType1, ObjType1, ClassType2, ObjType2]):
         # Update ancestors for recursion
         self._ancestors.update(product(eq_path1, eq_path2))
 
+        # Matches concluded from here on may rely on the current pair being matched
+        n_matched = len(self._order_map)
+
         # The number of nonempty children
         n = len(non_empty_ind1)
 
@@ -178,6 +181,10 @@ class Isomorphism(Generic[ClassType1, ObjType1, ClassType2, ObjType2]):
         self._ancestors.difference_update(product(eq_path1, eq_path2))
         self._failed.add((curr1, curr2))
         self._index_data.pop((curr1, curr2), None)
+        # Forget the matches that were concluded while assuming the current pair
+        while len(self._order_map) > n_matched:
+            key, _ = self._order_map.popitem()
+            self._index_data.pop(key, None)
         return False
 
     def _get_eq_descendant(
